@@ -95,10 +95,10 @@ def run(ctx):
     warnings.simplefilter('ignore')
     ctx.trusted += ['scipy spsolve and the assembly of real bases (oracle only; the theorems speak about basis tables)',
                     'NumPy/SciPy COO->CSR duplicate summation (modelled as the dense semantics; validated by correspondence)']
-    ctx.assumptions += ['NOT PROVED: the affine change of variables that carries Green\'s identity from the reference cell (proved here, exact polynomial '
-                        'arithmetic) to a physical affine cell, and additivity of the integral over the cells; with these as the explicit hypotheses '
-                        'green_cell / load / cancel the patch test is proved (C06_patch_test_from_green_partial); polynomial completeness is proved; '
-                        'exact quadrature on the reference cell is C08/C02',
+    ctx.assumptions += ['ASSUMED (explicit hypotheses of C06_green_affine_cell / C06_patch_test_from_green_partial, nothing else): the two change-of-variables '
+                        'rules for integrals over an affine cell and its facets, and additivity of the integral over the cells (the cancel hypothesis); '
+                        'Green on the reference cell, integration by parts per direction, their linear extension to every polynomial, the affine algebra, '
+                        'polynomial completeness are proved; exact quadrature on the reference cell is C08/C02',
                         'NOT PROVED: scipy.sparse.linalg.spsolve returns the solution of a nonsingular system',
                         'the projection theorems cover basis functions that are tuples of scalar- or vector-valued fields (composite / '
                         'vector / H(div) / H(curl) value fields: inner = sum over all components); matrix-valued fields (the ddot branch of '
@@ -122,7 +122,8 @@ def run(ctx):
         try:
             txt, summary = c06_green.generate()
             ctx.write_gen('C06Green', txt)
-            green['ok'] = ctx.compile_dyn(['gen/C06Green.v'], timeout=600)
+            ctx.write_gen('C06Ibp', c06_green.generate_ibp())
+            green['ok'] = ctx.compile_dyn(['gen/C06Green.v', 'gen/C06Ibp.v'], timeout=600)
             ctx.extra['green_reference_cells'] = summary
         except TranslateError as e:
             ctx.broke('translator', 'c06_green.generate', e)
